@@ -11,4 +11,7 @@ const (
 
 var (
 	TopLevelSearchOperators = []string{"$search", "$searchMeta", "$vectorSearch", "$rankFusion"}
+	// Stages whose whole argument may be the name of a collection: {$out: "coll"},
+	// {$unionWith: "coll"}, {$merge: "coll"}
+	NamespaceShorthandStages = []string{"$out", "$unionWith", "$merge"}
 )
